@@ -4,8 +4,8 @@ from ..stage import LineStage, replay_line
 from .common import *
 from . import c05, c06
 
-ARTEFACTS = ["G1-consts", "G3-arith", "G3b-regions", "G9-update", "G23-c-wide"]
-EXTRA_PROPS = [("B3.Props.C01T", "B3/Props/C01T.lean"), ("B3.Props.C06W", "B3/Props/C06W.lean")]   # theorems about the code translated from the sources
+ARTEFACTS = ["G1-consts", "G3-arith", "G3b-regions", "G9-update", "G23-c-wide", "G26-asm-abi"]
+EXTRA_PROPS = [("B3.Props.C01T", "B3/Props/C01T.lean"), ("B3.Props.C06W", "B3/Props/C06W.lean"), ("B3.Props.C07A", "B3/Props/C07A.lean")]   # theorems about the code translated from the sources
 RULE = ("the C05 kernel calls and the C06 API histories run in harness/c, where every input ends flush against a PROT_NONE page, every "
         "output is produced once flush against an upper and once flush after a lower guard page with 0xAA canaries on the open side, "
         "the working copy of the hasher is itself flush against a guard page, and every assembly routine (System V and Windows-GNU) is "
